@@ -112,14 +112,18 @@ def enum_env_str(seed):
     values += [w + "\n" for w in ("v1", "A_b", "x" * 9, "0")] + ["\n" + "v1", "v1\n\n", "a\nb"]
     rnd.shuffle(values)
     fails, cases = [], 0
-    names = ["A", "M", "N", "Z", "_u", "b9"]
+    names = ["A", "M", "N", "Z", "_u", "b9", "AM", "Nb9", "_uZ"]
     for i in range(0, len(values), 4):
         chunk = values[i:i + 4]
         if rnd.random() < .15:
             chunk = chunk[:-1] + [[rnd.choice(values), rnd.choice(values)]]
         ks = rnd.sample(names, len(chunk))
-        env = dict(zip(ks, chunk))
         nonexp = frozenset(k for k in ks if rnd.random() < .3)
+        if i % 20 == 0:
+            # whatever the seed: a marked name that contains unmarked ones (PVR / PV, DEPEND / D): the marker lists names, it is not searched as text
+            ks = ["AM", "A", "M", "b9"][:len(chunk)]
+            nonexp = frozenset(("AM",) if i % 40 else ("AM", "b9"))
+        env = dict(zip(ks, chunk))
         if nonexp:
             env["PKGCORE_NONEXPORTED_VARS"] = " ".join(sorted(nonexp))
         env["UID"] = "12"   # read-only in the daemon: must be left out
